@@ -418,7 +418,7 @@ func concScenario(variant int) *engine.Scenario {
 	var want float64
 	var negatives []string
 	var ivs [][4]time.Time // per tunnel of variant 3: earliest/latest possible open, earliest/latest possible close
-	sc := &engine.Scenario{Name: fmt.Sprintf("tt-conc-%d", variant), Opt: vrt.Options{ClockContended: true}}
+	sc := &engine.Scenario{Name: fmt.Sprintf("tt-conc-%d", variant), Opt: vrt.Options{ClockContended: true, LogYield: true}}
 	sc.Body = func() {
 		final, finalLoc, want, negatives, ivs = nil, nil, 0, nil, nil
 		smx, err := outline_prometheus.NewServiceMetrics(fakeDB{})
